@@ -246,7 +246,23 @@ def check_case(cell, case, ctx):
         except Exception as e:  # noqa: BLE001
             fail("exception", f"an accessor of the symbolic result raised {type(e).__name__}: {e!s:.300}")
             return
-    nstored = len(comps) - len(derived)
+    # the operator spellings (a + b, a - b, a * s, s * a, a / s) go through the SymPy backend's own ufunc hook
+    opforms = {"add": lambda: V + W, "subtract": lambda: V - W, "scale": lambda: V * sargs["factor"]}
+    nops = 0
+    if op.name in opforms:
+        try:
+            e2 = opforms[op.name]()
+            if obs.system_of(e2) != sysr or type(e2) is not type(expr):
+                fail("operator", f"the operator form returns {type(e2).__name__} stored as {R.sysname(obs.system_of(e2))}, the method "
+                     f"{type(expr).__name__} stored as {R.sysname(sysr)}")
+                return
+            oc = list(obs.stored(e2))
+            comps = comps + oc
+            nops = len(oc)
+        except Exception as e:  # noqa: BLE001
+            fail("exception", f"the operator form raised {type(e).__name__}: {e!s:.300}")
+            return
+    nstored = len(comps) - len(derived) - nops
     try:
         funcs = [sympy.lambdify(allsyms, c, modules="mpmath") for c in comps]
     except Exception as e:  # noqa: BLE001
@@ -346,7 +362,13 @@ def check_case(cell, case, ctx):
             # a Python-float factor enters the expression as a 53-bit literal and SymPy folds it (1/1.25 -> 0.8): accessors
             # computed from such folded constants agree to double precision only
             tol_d = mpf("1e-13") if any(isinstance(v, float) for v in sargs.values()) else TOL_MP
-            for n, g in zip(derived, got[nstored:]):
+            for k, g in enumerate(got[nstored + len(derived):]):
+                r = rst[k]
+                if not opcheck.close(g, r, TOL_MP, scale) and not (R.coord_names(sysr)[k] == "phi" and R.angle_close(g, r, TOL_MP * scale)):
+                    fail("value", f"operator form: component {R.coord_names(sysr)[k]} evaluates to {opcheck.fmt(g)} but the 60-digit backend "
+                         f"gives {opcheck.fmt(r)} (the method form agrees with it); a={opcheck.fmt(a)} b={opcheck.fmt(b) if b else None}")
+                    return
+            for n, g in zip(derived, got[nstored:nstored + len(derived)]):
                 try:
                     r = getattr(ref, n)
                 except ZeroDivisionError:
